@@ -1497,6 +1497,18 @@ def cli_pair_events(rng, n):
                 y, x = cpr_encode(lat, lon, odd)
                 pool.append(df17(5, a, me_surface(7, 20, 1, 40, odd, y or 1, x or 1)))
         lines = [rng.choice(pool) for _ in range(rng.randrange(20, 80))]
+        # a complete surface-position pair (and an airborne one) of a further aircraft, contiguous
+        a2 = 0x485000 + k
+        lat, lon = rng.uniform(-60, 60), rng.uniform(-170, 170)
+        blk = []
+        for odd in (0, 1, 0):
+            y, x = cpr_encode(lat, lon, odd)
+            blk.append(df17(5, a2, me_surface(7, 20, 1, 40, odd, y or 1, x or 1)))
+        for odd in (1, 0):
+            y, x = cpr_encode(lat + 0.001, lon, odd)
+            blk.append(df17(5, a2 + 0x100, me_airpos(11, 0, enc_alt12(2000), odd, y or 1, x or 1)))
+        at = rng.randrange(len(lines) + 1)
+        lines[at:at] = blk
         data = ''.join(l + '\n' for l in lines).encode()
         ra = cli.run_cli(binary, base + oa + ['--update=-1'], data=data, timeout=60)
         rb = cli.run_cli(binary, base + ob + ['--update=-1'], data=data, timeout=60)
